@@ -308,3 +308,108 @@ def _sign_class(conds):
     if minus is False:
         return "notminus"
     return "any"
+
+
+# ------------------------------------------------------------------ value sets
+def _path_in_target(t, name):
+    """Index path of `name` inside an unpacking target ((a, (b, c)) -> c is [1, 1]); [] when t is the name itself."""
+    if isinstance(t, ast.Name):
+        return [] if t.id == name else None
+    if isinstance(t, (ast.Tuple, ast.List)):
+        for i, e in enumerate(t.elts):
+            if isinstance(e, ast.Starred):
+                return None
+            r = _path_in_target(e, name)
+            if r is not None:
+                return [i] + r
+    return None
+
+
+def value_set(ctx, func, node, expr, depth=5, limit=64, stop=None):
+    """Source texts `expr` can stand for at CFG node `node`, with local temporaries replaced by (each of) their
+    reaching definitions, recursively.  Names with a parameter / loop definition stay as they are."""
+    import copy
+    import itertools
+    from .cfg import ReachingDefs
+    cfg = ctx.cfg(func)
+    key = ("rd", func.qualname)
+    cache = ctx.__dict__.setdefault("_rdcache", {})
+    if key not in cache:
+        cache[key] = ReachingDefs(cfg, params=func.params)
+    rd = cache[key]
+
+    def defs_of(n, name):
+        out = []
+        for d in sorted(rd.at(n, name)):
+            if not d:
+                return None
+            dn = cfg.nodes[d]
+            a = dn.ast
+            if dn.kind == "for":
+                # for i, (a, b) in enumerate(S): a is S[i][0];  for x in S: x stays a symbol
+                it, tg = a.iter, a.target
+                if isinstance(it, ast.Call) and src(it.func) == "enumerate" and len(it.args) == 1 and isinstance(tg, ast.Tuple) and len(tg.elts) == 2 \
+                        and isinstance(tg.elts[0], ast.Name):
+                    if tg.elts[0].id == name:
+                        return None
+                    base = ast.Subscript(value=it.args[0], slice=ast.Name(id=tg.elts[0].id, ctx=ast.Load()), ctx=ast.Load())
+                    p_ = _path_in_target(tg.elts[1], name)
+                    if p_ is None:
+                        return None
+                    for k_ in p_:
+                        base = ast.Subscript(value=base, slice=ast.Constant(value=k_), ctx=ast.Load())
+                    out.append((dn, base))
+                    continue
+                return None
+            if dn.kind != "stmt" or not isinstance(a, ast.Assign) or len(a.targets) != 1:
+                return None
+            t = a.targets[0]
+            if isinstance(t, ast.Name) and t.id == name:
+                out.append((dn, a.value))
+            elif isinstance(t, (ast.Tuple, ast.List)) and isinstance(a.value, (ast.Tuple, ast.List)) and len(t.elts) == len(a.value.elts):
+                hit = [v for te, v in zip(t.elts, a.value.elts) if isinstance(te, ast.Name) and te.id == name]
+                if not hit:
+                    return None
+                out.append((dn, hit[0]))
+            elif isinstance(t, (ast.Tuple, ast.List)):
+                p_ = _path_in_target(t, name)
+                if p_ is None:
+                    return None
+                base = a.value
+                for k_ in p_:
+                    base = ast.Subscript(value=base, slice=ast.Constant(value=k_), ctx=ast.Load())
+                out.append((dn, base))
+            else:
+                return None
+        return out or None
+
+    def expand(n, e, dep, seen):
+        names = []
+        for x in ast.walk(e):
+            if isinstance(x, ast.Name) and isinstance(x.ctx, ast.Load) and x.id not in [y for y, _ in names]:
+                ds = defs_of(n, x.id) if dep > 0 else None
+                if ds is not None and stop is not None and any(stop(v) for _, v in ds):
+                    ds = None       # a data source: the name is a leaf
+                if ds is not None and any(isinstance(v, (ast.List, ast.Dict, ast.Set, ast.ListComp, ast.SetComp, ast.DictComp, ast.GeneratorExp)) for _, v in ds):
+                    ds = None       # a container built up later: the name is the container
+                if ds is not None and not any((dn.id, x.id) in seen for dn, _ in ds):
+                    names.append((x.id, ds))
+        if not names:
+            return {src(e)}
+        out = set()
+        choices = [[(nm, dn, v) for dn, v in ds] for nm, ds in names]
+        for combo in itertools.islice(itertools.product(*choices), limit):
+            subs = {}
+            for nm, dn, v in combo:
+                subs[nm] = expand(dn, v, dep - 1, seen | {(dn.id, nm)})
+            for pick in itertools.islice(itertools.product(*[sorted(subs[nm]) for nm, _, _ in combo]), limit):
+                m = dict(zip([nm for nm, _, _ in combo], pick))
+
+                class R(ast.NodeTransformer):
+                    def visit_Name(self, x):
+                        if isinstance(x.ctx, ast.Load) and x.id in m:
+                            return ast.parse(m[x.id], mode="eval").body
+                        return x
+                out.add(src(R().visit(copy.deepcopy(e))))
+        return out
+    return expand(node, expr, depth, frozenset())
